@@ -260,6 +260,20 @@ def run(chk):
         check_vector_loops(chk, v, prog)
 
 
+def _whole_vectors(length, stride):
+    """the byte length is a multiple of the stride: every term carries a factor c*(x & -m) or a constant with c*m resp. c divisible"""
+    for mono, c in sym.poly_items(length):
+        m_ = 1
+        for a in mono:
+            if a[0] == "op" and a[1] == "&" and a[3][0] == "int" and a[3][1] < 0 and (-a[3][1]) & (-a[3][1] - 1) == 0:
+                m_ *= -a[3][1]
+            elif a[0] == "op" and a[1] == "&" and a[2][0] == "int" and a[2][1] < 0 and (-a[2][1]) & (-a[2][1] - 1) == 0:
+                m_ *= -a[2][1]
+        if (c * m_) % stride:
+            return False
+    return True
+
+
 def check_vector_loops(chk, v, prog):
     """every bottom-tested loop in inline asm is justified by a dominating guard or by a ring-degree fact"""
     vn = v.name
@@ -311,6 +325,47 @@ def check_vector_loops(chk, v, prog):
                                 c != b and c[0] == "fld" and sym.contains(c, b) for c in sym.atoms(a))))
                 dims = sorted(dims, key=repr)
                 ring = dims and all(_is_ring_degree(a) for a in dims)
+                # a C-level guard around the statement: `if (start < end) __asm__(...)` -- the first iteration has a non-empty range
+                def _dominating(effs, conds):
+                    for y in effs:
+                        if y is x:
+                            return conds
+                        for br, neg in (("then", False), ("else", True)):
+                            if y["e"] == "if":
+                                r_ = _dominating(y[br], conds + [(y["cond"], neg)])
+                                if r_ is not None:
+                                    return r_
+                        if y["e"] in ("loop", "while", "inlined"):
+                            r_ = _dominating(y["body"], conds)
+                            if r_ is not None:
+                                return r_
+                    return None
+                cguard = None
+                for c_, neg_ in (_dominating(eff, []) or []):
+                    if neg_ or not (isinstance(c_, tuple) and c_[0] == "op" and c_[1] in ("<", ">")):
+                        continue
+                    lo_, hi_ = (c_[2], c_[3]) if c_[1] == "<" else (c_[3], c_[2])
+                    d_ = sym.sub(hi_, lo_)
+                    if any(sym.sub(sym.mul(I(k_), d_), length) == ZERO for k_ in (1, 2, 4, 8)):
+                        cguard = c_
+                    import os
+                    if os.environ.get("VERIF_DEBUG"): print("CGUARD", c_, "D", d_, "LEN", length)
+                es_ = None
+                for a_ in sym.subterms(end):
+                    if a_[0] == "fld":
+                        for r_ in v.records.values():
+                            for fd_ in r_["fields"]:
+                                if fd_["n"] == a_[2] and fd_["t"].replace("const ", "").strip() in ("int *", "unsigned int *", "float *"):
+                                    es_ = 4
+                                elif fd_["n"] == a_[2] and fd_["t"].replace("const ", "").strip() in ("double *", "long *", "unsigned long *"):
+                                    es_ = 8
+                if cguard is not None and stride and es_ and _whole_vectors(sym.mul(I(es_), length), stride):
+                    chk.proved("R2", key, where=where, detail="bottom-tested, inside `if (%s)`: the range is a non-empty whole number of %d-byte "
+                               "vectors when the loop is entered" % (sym.show(cguard)[:80], stride), variant=vn)
+                    continue
+                if cguard is not None and not ring:
+                    chk.broken("%s: asm loop at line %s is bottom-tested inside `if (%s)`; that the guarded range is a whole number of %s-byte "
+                               "vectors was not established (element size %s): not decided" % (f.name, x["l"], sym.show(cguard)[:80], stride, es_))
                 if ring:
                     chk.proved("R2", key, where=where,
                                detail="bottom-tested over %s bytes: a ring-degree quantity (N is a power of two >= the vector width, "
